@@ -9,7 +9,7 @@ def sh(cmd, cwd=None):
     p = subprocess.run(cmd, shell=True, cwd=cwd, env=ENV, stdout=subprocess.PIPE, stderr=subprocess.STDOUT, text=True)
     return p.returncode, p.stdout
 scratch = {}
-for f in (sorted(glob.glob("/tmp/seed_eval.*.jsonl")) if os.environ.get("SEED_ROUND", "1") == "1" else sorted(glob.glob("/tmp/seed2_eval.*.jsonl"))):
+for f in sorted(glob.glob({"1": "/tmp/seed_eval.*.jsonl", "2": "/tmp/seed2_eval.*.jsonl", "3": "/tmp/seed3_eval.*.jsonl"}[os.environ.get("SEED_ROUND", "1")])):
     for l in open(f):
         l = l.strip()
         if l.startswith("{"):
@@ -21,11 +21,11 @@ for f in (sorted(glob.glob("/tmp/seed_eval.*.jsonl")) if os.environ.get("SEED_RO
             scratch[key] = r
 assert sh("git -C /repo status --porcelain")[1].strip() == "", "/repo not clean"
 ROUND = os.environ.get("SEED_ROUND", "1")
-MUT = "/tmp/mut-" if ROUND == "1" else "/tmp/mut2-"
-TAG = "" if ROUND == "1" else "r2-"
-# round-2 changes whose trigger lies outside the domain of the property they were written for
-RETARGET = {("C11", "3"): "C14"} if ROUND == "2" else {}
-REJECT = {("C02", "1")} if ROUND == "2" else set()
+MUT = {"1": "/tmp/mut-", "2": "/tmp/mut2-", "3": "/tmp/mut3-"}[ROUND]
+TAG = {"1": "", "2": "r2-", "3": "r3-"}[ROUND]
+# changes whose trigger lies outside the domain of the property they were written for
+RETARGET = {"2": {("C11", "3"): "C14"}, "3": {("C17", "2"): "C18"}}.get(ROUND, {})
+REJECT = {"2": {("C02", "1")}, "3": {("C11", "1")}}.get(ROUND, set())
 ids = sys.argv[1:] or "C02 C05 C06 C08 C09 C11 C13 C14 C15 C17 C18 C19 C20".split()
 for pid in ids:
     for k in "123":
@@ -57,7 +57,7 @@ for pid in ids:
             "on_repo_target_check": {"cmd": f"./check {target} quick", "exit": rc, "violation_classes": classes, "first_detail": (details[0][:500] if details else ""), "wall_s": round(time.time() - t0, 1)},
             "caught_by_target_check": rc == 1,
             "other_checks_that_catch_it_scratch_scale_0_3": sorted(p for p, c in s.get("checks", {}).items() if c.get("exit") == 1 and p != target),
-            "caught_at_first_evaluation_before_strengthening": (target in [p for p, c in s.get("checks", {}).items() if c.get("exit") == 1]) if ROUND == "2" else None,
+            "caught_at_first_evaluation_before_strengthening": (target in [p for p, c in s.get("checks", {}).items() if c.get("exit") == 1]) if ROUND != "1" else None,
         }
         json.dump(meta, open(f"{out}/meta.json", "w"), indent=1)
         print(pid, TAG + k, "->", target, "exit", rc, classes[:3], flush=True)
